@@ -24,7 +24,8 @@ def RULE(tier):
         f"or numbers skipped with set_seq_num). EXHAUSTIVELY all journals of <= {k} slots over the slot kinds x ALL "
         "(BeginSeqNo, EndSeqNo) with BeginSeqNo in [-1, L+3], EndSeqNo in {0} U [BeginSeqNo-1, L+3], issued one after the "
         "other on the same endpoint (so every request also runs after earlier overlapping and identical requests), in ACTIVE "
-        "and while the endpoint itself awaits a resend; plus Hypothesis journals up to 30 slots with requests interleaved "
+        "and while the endpoint itself awaits a resend; numbering epochs (reset_seq_num() between requests, so that later requests carry lower "
+        "MsgSeqNums than earlier ones); plus Hypothesis journals up to 30 slots with requests interleaved "
         "with further sends. Chain validator written from the statement: the reply is a contiguous ascending chain covering "
         "exactly [b, t] whose links are retransmissions (original type and MsgSeqNum, PossDupFlag=Y, OrigSendingTime = "
         "original SendingTime, body equal field for field) or SequenceReset-GapFill; every replayable application message "
@@ -265,6 +266,17 @@ def run_journal(acc, role, state, slots, requests, origin):
             reqs = requests
         seen = set()
         for item in reqs:
+            if item == "reset":
+                # the public reset of both sequence numbers (a new numbering epoch on the same connection object)
+                r = d.b.w.call(d.ep.reset_seq_num())
+                if r[0] != "ok":
+                    acc.violation("C06:reset_seq_num-raises", f"reset_seq_num() raised {r[1]!r}", dict(case))
+                    break
+                d.first = {}
+                d.collect("auto")
+                seen = set()
+                acc.klass("epoch-reset")
+                continue
             if isinstance(item, str):
                 err = d.add_slot(item)
                 if err:
@@ -285,6 +297,9 @@ def run_journal(acc, role, state, slots, requests, origin):
 
 
 def exhaustive(acc, role, state, nslots, part, parts):
+    if part == 0:
+        for slots in (["app", "app"], ["app", "hb", "appg"]):
+            run_journal(acc, role, state, slots, [(1, 0), (2, 0), (1, 0), (2, 3), "reset", "app", "app", "hb", "app", (1, 0), (2, 0), (2, 3), "reset", "app", (1, 0)], "epochs")
     k = 0
     for L in range(0, nslots + 1):
         for slots in itertools.product(SLOTS, repeat=L):
@@ -303,7 +318,7 @@ def exhaustive(acc, role, state, nslots, part, parts):
 
 
 slot = st.sampled_from(SLOTS + ["app", "app", "appg"])
-item = st.one_of(st.tuples(st.integers(-1, 36), st.integers(-1, 36)), st.tuples(st.integers(1, 30), st.just(0)), st.tuples(st.integers(1, 12), st.integers(1, 12)),
+item = st.one_of(st.just("reset"), st.tuples(st.integers(-1, 36), st.integers(-1, 36)), st.tuples(st.integers(1, 30), st.just(0)), st.tuples(st.integers(1, 12), st.integers(1, 12)),
                  st.sampled_from(SLOTS))
 
 
